@@ -23,11 +23,12 @@ Inductive sysop :=
 | Write (off : nat) (bs : list byte)       (* util::SeekOrThrow + util::WriteOrThrow: reaches the page cache only *)
 | Msync (len : nat)                        (* msync(base, len, MS_SYNC): the pages of [0, len) become durable *)
 | Fsync                                    (* util::FSyncOrThrow: every page (and the size) becomes durable *)
+| SyncFail                                 (* an msync/fsync that returns -1 (EIO, ENOSPC, EDQUOT...): forces nothing to stable storage *)
 | Close.
 
 (* what strace / the shim can see of an operation (stores through a mapping are invisible) *)
 Inductive shape := SCreate | STruncate (n : nat) | SMmap (len : nat) | SMunmap (len : nat)
-                 | SWrite (off len : nat) | SMsync (len : nat) | SFsync | SClose.
+                 | SWrite (off len : nat) | SMsync (len : nat) | SFsync | SSyncFail | SClose.
 
 Definition shape_of (op : sysop) : option shape :=
   match op with
@@ -39,6 +40,7 @@ Definition shape_of (op : sysop) : option shape :=
   | Write off bs => Some (SWrite off (length bs))
   | Msync l => Some (SMsync l)
   | Fsync => Some SFsync
+  | SyncFail => Some SSyncFail
   | Close => Some SClose
   end.
 
@@ -75,7 +77,7 @@ Definition step (st : file) (op : sysop) : file :=
       let c := overwrite zero (cache st) off bs in {| durable := pad (durable st) (length c); cache := c |}
   | Msync len => {| durable := mix (fun p => p <? pages_covering len) (durable st) (cache st); cache := cache st |}
   | Fsync => {| durable := cache st; cache := cache st |}
-  | Mmap _ | Munmap _ | Close => st
+  | Mmap _ | Munmap _ | SyncFail | Close => st
   end.
 
 Definition run (st : file) (tr : list sysop) : file := fold_left step tr st.
@@ -158,6 +160,13 @@ Definition finish_trace_gen (fixed : bool) (wm : write_method) (include_vocab : 
 Definition finish_trace := finish_trace_gen true.
 (* the code before commit "fix: ... fsync ..." (kept for the refutation witness) *)
 Definition finish_trace_before_fix := finish_trace_gen false.
+
+(* The sync of FinishFile fails (SyncOrThrow / FSyncOrThrow throw): the exception leaves FinishFile before the header is
+   written; build_binary reports the error and the destructors run (~BinaryFormat: msync + munmap of the mapping; ~scoped_fd). *)
+Definition failed_sync_trace (wm : write_method) (include_vocab : bool) (c : contents) : list sysop :=
+  let tot := c_H c + length (c_vocab1 c) + c_pad c + length (c_search1 c) in
+  body_trace wm include_vocab c ++ [SyncFail] ++
+  match wm with WriteMmap => [Msync tot; Munmap tot; Close] | WriteAfter => [Close] end.
 
 (* the same trace as strace sees it, from the sizes alone: HV = H + V, P = vocab_pad, M = |search|, W = |words| *)
 Definition finish_shape (wm : write_method) (include_vocab : bool) (H HV P M W : nat) : list shape :=
